@@ -9,6 +9,8 @@ M-SCHED (Model/Sched.lean) carries the `is_terminated` latch of the driver API (
 import NexoVerif.Lemmas.NetInit
 import NexoVerif.Lemmas.SchedTop
 import NexoVerif.Lemmas.SchedRun
+import NexoVerif.Lemmas.NamesThm
+import NexoVerif.Extracted
 
 namespace NexoVerif.Net
 set_option linter.unusedSimpArgs false
@@ -165,3 +167,23 @@ theorem only_fatal_errors_terminate (prog : Prog) (ord : Oracle) (s : St) (h : s
   exact this hr
 
 end NexoVerif.Sched
+
+/-! ## which name a failure report carries (M-NAMES) -/
+
+namespace NexoVerif.Names
+
+/-- **a_failure_is_reported_under_the_failing_models_name** — M-NET's faults carry the index of the model that raised them;
+the code turns the identifier stored in the failing model's future into a name with `model_names[model_id]`.  For every
+bench, flat or hierarchical, that entry is the qualified name the model was added under (read from the source: where the
+identifier is taken, how sub-models are named, how the report looks the name up). -/
+theorem a_failure_is_reported_under_the_failing_models_name (bench : List Proto) (q : String) (id : Nat)
+    (h : (q, id) ∈ (addTop false {} bench).spawned) :
+    (addTop false {} bench).names[id]? = some q ∧
+    Extracted.namesIdTakenWhenNameIsPushed = true ∧ Extracted.namesSubmodelIsQualified = true ∧
+    Extracted.namesErrorLooksUpById = true :=
+  ⟨(addTop_inv {} bench Inv.empty).lookup h, by decide, by decide, by decide⟩
+
+-- non-vacuity
+example : (("top.sub", 0) : String × Nat) ∈ (addTop false {} exBench).spawned := by decide
+
+end NexoVerif.Names
